@@ -645,7 +645,6 @@ func c04Determinism(c *lab.Ctx) {
 	}
 }
 
-
 // c04Churn: a writer keeps replacing the routes of virtual host vi (RemoveAllRoutes, then AddRoute one by one) alternating between
 // two lists that match the same requests but name different clusters, both bracketed by catch-all routes; 48 readers look the probes up
 // meanwhile. Every answer must be the answer of a fresh build holding some prefix of one of the two lists.
